@@ -77,6 +77,8 @@ def lookup_external(dotted):
     mod = dotted.split(".")[0]
     if mod in ("typing", "abc", "dataclasses", "pystrict", "functools"):
         return C(Builtin("typing." + dotted.split(".")[-1]))
+    if dotted in ("os.path",):
+        return C(ModuleRef("os.path"))
     if dotted.startswith("logging.Logger."):
         nm = dotted.split(".")[-1]
         return C(Builtin("logger.isEnabledFor_" if nm == "isEnabledFor" else "logger." + nm))
@@ -684,9 +686,23 @@ def abslist_comprehension(eng, st, lst, e, gen):
     n2 = z3.Int(P.fresh_name("len_flt"))
     st.axiom(n2 >= 0)
     st.axiom(n2 <= o.meta["length"])
+    # elements known to be in the source list stay known members when the filter keeps them
+    musts = []
+    for g, v in o.meta.get("must", []):
+        probe = st.clone()
+        base = len(probe.pc)
+        try:
+            keeps = [zand(*s2.pc[base:]) for s2, keep in flt_closed(eng, probe, v) if keep]
+        except OutOfSubset:
+            keeps = []
+        gg = zand(g, zor(*keeps))
+        if not z3.is_false(gg):
+            musts.append((gg, v))
     new = HObj("abslist", "list", meta={"length": n2, "nonempty": n2 > 0, "gen": o.meta["gen"],
                                         "filters": o.meta["filters"] + [flt_closed], "name": o.meta["name"] + "'",
-                                        "known": list(o.meta["known"])})
+                                        "known": list(o.meta["known"]), "must": musts})
+    if musts:
+        st.axiom(z3.Implies(zor(*[g for g, _ in musts]), n2 > 0))
     return eng.ok(st, st.alloc(new))
 
 
@@ -789,22 +805,33 @@ def _assume_fallthrough(eng, st, lst, stmt, musts):
         base = len(probe.pc)
         conds = []
         ok = True
+        newdefs = []
+        ndefs = len(st.defs)
         try:
             for s3, o3 in eng.assign_target(probe, stmt.target, v):
                 if o3[0] != "next":
                     ok = False
                     break
                 for s4, o4 in eng.exec_block(s3, stmt.body):
+                    if o4[0] not in ("next", "continue"):
+                        continue
                     if not s4.clean_since(mark):
                         ok = False
                         break
                     if o4[0] in ("next", "continue"):
                         conds.append(zand(*s4.pc[base:]))
-                        for d in s4.defs[len(st.defs):]:
-                            st.defs.append(d)
+                        newdefs.extend(s4.defs[ndefs:])
         except OutOfSubset:
             ok = False
+        import os as _os
+        if _os.environ.get("VERIF_TRACE"):
+            print("fallthrough", ok, g, len(conds))
         if ok:
+            seen = set(id(d) for d in st.defs)
+            for d in newdefs:
+                if id(d) not in seen:
+                    st.defs.append(d)
+                    seen.add(id(d))
             st.assume(z3.Implies(g, zor(*conds)))
 
 
@@ -1730,3 +1757,55 @@ def _al_append(eng, st, recv, args, kwargs):
     o.meta["known"] = list(o.meta["known"]) + [args[0]]
     st.touch(o)
     return eng.ok(st, NONE)
+
+
+@bf("open")
+def _open(eng, st, recv, args, kwargs):
+    """open(): an abstract handle, or FileNotFoundError / PermissionError / OSError"""
+    res = []
+    s2 = st.clone()
+    ex = eng.sym_exc(s2, [ClassRef("FileNotFoundError"), ClassRef("PermissionError"), ClassRef("OSError")], prefix="open.exc")
+    res.append((s2, (RAISE, ex)))
+    noop = lambda e, s, r, a, k: e.ok(s, NONE)
+    fh = st.alloc(HObj("opaque", None, meta={"tag": "file", "methods": {"close": noop, "seek": noop, "write": noop,
+                                                                       "read": lambda e, s, r, a, k: e.ok(s, P.fresh("Bytes", "read"))}}))
+    res.append((st, (VAL, fh)))
+    return res
+
+
+@bf("os.path.exists")
+def _os_exists(eng, st, recv, args, kwargs):
+    return eng.ok(st, P.fresh("bool", "os.path.exists"))
+
+
+def _os_effect(name):
+    def f(eng, st, recv, args, kwargs):
+        res = []
+        s2 = st.clone()
+        ex = eng.sym_exc(s2, [ClassRef("FileNotFoundError"), ClassRef("PermissionError"), ClassRef("OSError"), ClassRef("FileExistsError")], prefix=name + ".exc")
+        res.append((s2, (RAISE, ex)))
+        res.append((st, (VAL, NONE)))
+        return res
+    return f
+
+
+for _n in ("os.rename", "os.unlink", "os.mkdir", "os.remove", "shutil.rmtree"):
+    BUILTIN_FUNCS[_n] = _os_effect(_n)
+
+
+@bf("os.path.join")
+def _os_join(eng, st, recv, args, kwargs):
+    return eng.ok(st, P.fresh("str", "os.path.join"))
+
+
+BUILTIN_FUNCS["os.path.dirname"] = _os_join
+BUILTIN_FUNCS["os.path.basename"] = _os_join
+BUILTIN_FUNCS["tempfile.mkdtemp"] = _os_join
+
+
+@bf("logging.getLevelName")
+def _getlevelname(eng, st, recv, args, kwargs):
+    return eng.ok(st, C(5))
+
+
+BUILTIN_FUNCS["logging.addLevelName"] = _noop
